@@ -18,13 +18,15 @@ RULE = ("Latin-1 streams assembled from protocol fragments (known/unknown opener
         "length after every call, suffix invariant. Oracles: every delivered object is a conformant message that literally "
         "occurs in the stream at increasing positions; retained <= threshold; a valid message behind non-imitating text only is "
         "delivered at the call following its last character; behind imitating/truncated text it is delivered once threshold+1 "
-        "further characters arrived. non-trivial = stream contains junk and the run cut inside a piece; "
+        "further characters arrived. Isolation: through the real TCP server / client handlers, one connection of a process carries garbage "
+        "(possibly ending inside a message) while 1..2 others carry clean streams, pieces interleaved: the clean connections deliver "
+        "exactly their own messages, promptly. non-trivial = stream contains junk and the run cut inside a piece; "
         "distinct = hash(stream, threshold, cuts)")
 ASSUMPTIONS = ["promptness is only demanded while the framer is provably synchronised (no '<'+registered-tag text retained before the message)",
                "with the threshold disabled no recovery after imitating junk is demanded",
                "a top-level <oneLight> is accepted as genuine because indipy registers it as a message kind"]
 REQUIRED_EVENTS = ["process_calls", "deliveries", "prompt_obligations", "bounded_progress_obligations", "genuine_checks",
-                   "streams_with_imitating_junk", "truncated_pieces"]
+                   "streams_with_imitating_junk", "truncated_pieces", "isolation_runs", "isolation_obligations"]
 
 THRESHOLDS = [16, 128, 2048, None]
 QUICK_SHARDS = 4
@@ -260,6 +262,71 @@ def one_case(ctx, case):
         ctx.sample({"flavour": flavour, "threshold": thr, "pieces": [(p[0], p[1]) for p in pieces], "cuts": cuts[:20]})
 
 
+def isolation_case(ctx, i):
+    """Garbage on ONE connection of a process: the other connections - whose own streams are clean - must deliver exactly their
+    own messages, each as soon as its last character arrived, and nobody may be handed a message that nobody sent."""
+    from vf import transportx as T
+    rng = ctx.rng("isolation", i)
+    kind = ["server-tcp", "client-tcp"][i % 2]
+    flavour, jp = J.gen_stream(rng, rng.choice(["imitating", "truncated", "only-junk", "mixed"]))
+    junk = "".join(p[1] for p in jp)
+    if rng.random() < 0.5:
+        # ends inside a message
+        am, text, tail = J.small_valid(rng)
+        junk += text[:rng.randrange(1, len(text))]
+    enc = lambda t: t.encode("latin1", "xmlcharrefreplace").decode("latin1")
+    junk = enc(junk)
+    clean = []
+    for k in range(rng.choice([1, 2])):
+        stream, ends, ams = "", [], []
+        for _ in range(rng.choice([1, 2, 3])):
+            am, text, tail = J.small_valid(rng)
+            text = enc(text)
+            stream += text
+            ends.append(len(stream) - tail)
+            ams.append(am)
+        clean.append((stream, ends, ams))
+    pieces = [P.cut(junk, P.random_cuts(rng, len(junk), rng.choice([1, 2, 4])))]
+    for stream, ends, ams in clean:
+        pieces.append(P.cut(stream, P.random_cuts(rng, len(stream), rng.choice([1, 2, 3, 6]))))
+    how = ["round-robin", "random", "junk-first", "junk-first-then-hangs-up"][(i // 2) % 4]
+    if how.startswith("junk-first"):
+        schedule = [0] * len(pieces[0]) + T.interleavings(rng, [0] + [len(p) for p in pieces[1:]], "random")
+    else:
+        schedule = T.interleavings(rng, [len(p) for p in pieces], how)
+    eof_order = list(range(len(pieces)))
+    res, stats = T.run(kind, pieces, schedule, eof_order=eof_order)
+    ctx.count("isolation_runs")
+    ctx.count("process_calls", stats["calls"])
+    case = {"mode": "isolation", "i": i}
+    detail = {"kind": kind, "schedule": schedule, "pieces": pieces, "how": how}
+    for ci, what, text in res.errors:
+        if ci != 0 or what != "receive-loop-does-not-end-at-eof":
+            ctx.violate(f"isolation:{what}:{kind}:{'junk' if ci == 0 else 'clean'}-connection", f"connection {ci}: {what} {text}", case, detail)
+            return
+    if res.foreign:
+        ctx.violate(f"isolation:delivery-attributed-to-nobody:{kind}", f"{res.foreign[0]}", case, detail)
+        return
+    for step, (ci, fed, ndel) in enumerate(res.after):
+        if ci == 0:
+            continue
+        ends = clean[ci - 1][1]
+        due = sum(1 for e in ends if e <= fed)
+        ctx.count("isolation_obligations")
+        if ndel != due:
+            ctx.violate(f"isolation:clean-connection-{'starved' if ndel < due else 'given-foreign-messages'}:{kind}:{how}",
+                        f"after feed step {step} the clean connection {ci} had received {fed} characters = {due} complete messages, "
+                        f"but {ndel} were delivered to it (connection 0 carries garbage)", case, detail)
+            return
+    for ci, (stream, ends, ams) in enumerate(clean, start=1):
+        want = [view_abstract(a) for a in ams]
+        got = [v for _, v in res.delivered[ci]]
+        ctx.count("deliveries", len(got))
+        if got != want:
+            ctx.violate(f"isolation:clean-connection-delivers-other-sequence:{kind}", f"connection {ci}: got {got!r:.300}, sent {want!r:.300}", case, detail)
+            return
+
+
 CUTMODES = ["whole", "char", "pieces", "fixed", "random", "random", "random"]
 
 
@@ -283,6 +350,10 @@ def _run(ctx):
                 if thr == 2048 and mode == "char" and i % 5:
                     continue  # long flush tail, character by character: sampled
                 one_case(ctx, {"i": i, "thr": thr, "c": c, "cutmode": mode})
+    for i in range(800 if not ctx.thorough else 40000):
+        if ctx.mine(i):
+            isolation_case(ctx, i)
+            ctx.case_fast(("isolation", i), nontrivial=True)
     # truncation of corpus messages at every position
     m = 32 if not ctx.thorough else 400
     for i in range(1_000_000, 1_000_000 + m):
@@ -308,4 +379,8 @@ def finish_notes(ctx):
 
 
 def replay(ctx, case):
+    if case.get("mode") == "isolation":
+        isolation_case(ctx, case["i"])
+        ctx.case_fast(("replay",))
+        return
     one_case(ctx, case)
